@@ -132,7 +132,8 @@ def plan(tier, seed):
 
 BODY_POOL = [bytes([0x00]), bytes([0x08, 0x5A]), bytes([0x40, 0x01]), bytes([0x4F, 0x5F]), bytes([0x28, 0x38]),
              bytes([0x6C, 0x00]), bytes([0xA0, 0x30]), bytes([0x2A, 0x3A]), bytes([0x97]), bytes([0x9F]),
-             bytes([0x2C, 0x3C]), bytes([0x64, 0x0F]), bytes([0x0A, 0x34, 0x12])]
+             bytes([0x2C, 0x3C]), bytes([0x64, 0x0F]), bytes([0x0A, 0x34, 0x12]),
+             bytes([0x0B, 0x02, 0x00, 0xEF]), bytes([0x00, 0xEF])]      # ... and WAIT (after MV I,2 / after a NOP)
 
 
 def run_program(res, r, kind):
